@@ -43,6 +43,10 @@ def gen(rng, tier):
     for i in range(N_CASES[tier]):
         limit = rng.choice([1, 16, 1024, 65536, 65536])
         nmsg = rng.choice([1, 2, 3, 5, 12])
+        burst = rng.random() < 0.08
+        if burst:
+            # far more messages (and pings) in one read than the application's queue holds / than any reply queue is long
+            nmsg = rng.choice([13, 25, 40])
         deflate = rng.random() < 0.35
         nct = deflate and rng.random() < 0.3
         carrier = "h2" if rng.random() < 0.3 else "h11"
@@ -52,6 +56,9 @@ def gen(rng, tier):
             # application queue, WINDOW_UPDATEs queued behind DATA) - a liveness matter outside this property
             limit = rng.choice([1, 16, 1024])
         msgs = [_gen_message(rng, k, limit) for k in range(nmsg)]
+        if burst:
+            limit = 65536
+            msgs = [("text", "m%03d" % k) if rng.random() < 0.7 else ("bytes", b"b%03d" % k) for k in range(nmsg)]
         comp = zlib.compressobj(zlib.Z_DEFAULT_COMPRESSION, zlib.DEFLATED, -15) if deflate else None
         frames = bytearray()
         pings = []
@@ -76,10 +83,16 @@ def gen(rng, tier):
                     pings.append((k, pl))
                     inner.append(k)
             frames += fr
-            if rng.random() < 0.15:
+            if rng.random() < (0.15 if not burst else 0.0):
                 pl = b"p%d" % k
                 frames += ws.frame(ws.OP_PING, pl)
                 pings.append((k + 0.5, pl))
+        if burst and rng.random() < 0.6:
+            # a run of pings in the same read, behind the messages
+            for j in range(rng.choice([5, 33, 40, 100])):
+                pl = b"bp%d" % j
+                frames += ws.frame(ws.OP_PING, pl)
+                pings.append((nmsg + 0.5, pl))
         closef = ws.close_frame(1000)  # sent only after the echoes had a chance to arrive
         ext = None
         if deflate:
@@ -95,8 +108,10 @@ def gen(rng, tier):
                  "server_pings": keepalive_pings}
         if carrier == "h11":
             hs = ws.handshake(path=b"/t%d" % i, extensions=ext)
-            mode = rng.choice(["after_accept", "split", "two", "bytes"])
-            if mode == "after_accept":
+            mode = rng.choice(["after_accept", "split", "two", "bytes"]) if not burst else "burst"
+            if mode == "burst":
+                client = [["feed", hs], ["settle"], ["feed_split", bytes(frames), [len(frames)]]]
+            elif mode == "after_accept":
                 client = [["feed", hs], ["settle"], ["feed_split", bytes(frames), G.gen_splits(rng, len(frames))]]
             else:
                 # frames must not precede acceptance: feed the handshake, settle, then the frames in pieces
@@ -106,7 +121,7 @@ def gen(rng, tier):
             if keepalive_pings:
                 client += [["advance", 1.3], ["settle"]]
             client += [["feed", closef], ["settle"]]
-            yield {"family": "h11." + ("deflate" if deflate else "plain"), "backends": ["asyncio", "trio"],
+            yield {"family": "h11." + ("deflate" if deflate else "plain") + (".burst" if burst else ""), "backends": ["asyncio", "trio"],
                    "config": config, "conn": {}, "apps": apps, "client": client, "reactor": {"kind": "ws", "echo_close": False},
                    "truth": truth, "sched": {"seed": rng.randrange(1 << 30)}, "horizon": 100.0}
         else:
